@@ -149,6 +149,29 @@ pub fn tournament_with_paired_defects(rng: &mut Rng, order: usize, d: usize, k: 
     g
 }
 
+/// A tournament with one emptied and one doubled pair, both in row `r` (pairs {r, v1}, {r, v2}): the arc
+/// count is still n(n-1)/2 and every defect sits in a single row - the blind spot of a scan that skips
+/// or double-assigns one row (the middle one of an odd order, the first, the last). With `above` both
+/// partners are larger than `r` when possible, so only row `r` itself can see the defects in an
+/// upper-triangle scan.
+pub fn tournament_with_row_defects(rng: &mut Rng, order: usize, r: usize, above: bool) -> Dg {
+    let mut g = random_tournament(rng, order);
+    if order < 3 || r >= order {
+        return g;
+    }
+    let pool: Vec<usize> = if above && r + 2 < order { (r + 1..order).collect() } else { (0..order).filter(|&v| v != r).collect() };
+    let v1 = pool[rng.below(pool.len())];
+    let mut v2 = pool[rng.below(pool.len())];
+    if v2 == v1 {
+        v2 = *pool.iter().find(|&&v| v != v1).unwrap();
+    }
+    let _ = g.a.remove(&(r, v1));
+    let _ = g.a.remove(&(v1, r));
+    let _ = g.a.insert((r, v2));
+    let _ = g.a.insert((v2, r));
+    g
+}
+
 /// `k` distinct vertex ids. Styles: contiguous 0..k; contiguous with holes;
 /// sparse ids from a wide range; shifted block (no vertex 0).
 pub fn random_vertex_set(rng: &mut Rng, k: usize, max_id: usize) -> BTreeSet<usize> {
